@@ -63,6 +63,13 @@ Fixpoint pairs (l : list node) : list (node * node) :=
 Definition moral_edges (g : digraph) : list (node * node) :=
   edges g ++ flat_map (fun n => pairs (parents g n)) (nodes g).
 
+(* get_immoralities(): for every node, every unordered pair of its parents that is joined by no edge in
+   either direction (the code returns tuple(sorted(pair)); the harness canonicalises to sorted pairs).
+   [adjacent] is defined with minimal_dseparator below; the test is written out here. *)
+Definition immoralities (g : digraph) : list (node * node) :=
+  flat_map (fun n => filter (fun p => negb (has_edge g (fst p) (snd p) || has_edge g (snd p) (fst p)))
+                            (pairs (parents g n))) (nodes g).
+
 (* get_markov_blanket(node) *)
 Definition markov_blanket (g : digraph) (n : node) : list node :=
   let ch := children g n in
@@ -121,3 +128,27 @@ Definition minimal_dseparator (g : digraph) (lat : list node) (x y : node)
               (fun (ms : list node) (u : node) =>
                  if is_dconnected ag x y (remove1 u ms) then ms else remove1 u ms)
               (iter_order order sep) sep)).
+
+(* ------------------------------------------------------------------ graph edits (sessions on one object)
+   The mutators a DAG / BayesianNetwork object offers (own or inherited from networkx), as functions on
+   the graph value; every query above is a function of the CURRENT graph only. *)
+(* remove_edge / remove_edges_from (missing edges are ignored by remove_edges_from) *)
+Definition remove_edges (g : digraph) (es : list (node * node)) : digraph :=
+  {| nodes := nodes g; edges := filter (fun e => negb (existsb (edge_eqb e) es)) (edges g) |}.
+(* remove_node / remove_nodes_from: the node and every edge touching it *)
+Definition remove_node (g : digraph) (v : node) : digraph :=
+  {| nodes := remove1 v (nodes g);
+     edges := filter (fun e => negb (Nat.eqb (fst e) v) && negb (Nat.eqb (snd e) v)) (edges g) |}.
+(* do(ns, inplace=True): every edge INTO a member of ns is removed *)
+Definition do_graph (g : digraph) (ns : list node) : digraph :=
+  {| nodes := nodes g; edges := filter (fun e => negb (memn (snd e) ns)) (edges g) |}.
+(* add_node / add_nodes_from: nodes already present are kept once *)
+Definition add_nodes (g : digraph) (ns : list node) : digraph :=
+  {| nodes := fold_left (fun acc n => if memn n acc then acc else acc ++ [n]) ns (nodes g); edges := edges g |}.
+(* add_edge / add_edges_from: end points are added on demand, an edge already present is kept once *)
+Definition add_edge1 (g : digraph) (e : node * node) : digraph :=
+  let g1 := add_nodes g [fst e; snd e] in
+  {| nodes := nodes g1; edges := if has_edge g (fst e) (snd e) then edges g else edges g ++ [e] |}.
+Definition add_edges (g : digraph) (es : list (node * node)) : digraph := fold_left add_edge1 es g.
+(* clear_edges() / clear() *)
+Definition clear_edges (g : digraph) : digraph := {| nodes := nodes g; edges := [] |}.
